@@ -63,6 +63,14 @@ PROPS = {
         trusted=COMMON_TRUST + ["verif hooks tor/export_verif.go (VerifInit, VerifHandleEvent, VerifPeriodicRequest, VerifPeers, VerifInFlight, VerifAvailable), peer/export_verif.go (VerifState)", "the harness's quiescence detection (activity counters stable; a failed audit is repeated after a long pause before it counts)", "the scripted remote peers and the in-memory pipe"],
         assumptions=["a state read of an idle peer goroutine after a synchronous GetStatus round trip is consistent"],
     ),
+    "C10": dict(
+        level_text="Model/Requested.v models tor/requests.go (Add, Del, del, Done, DelIdle, DelIdlePiece) with numbered completion channels. Theorems over every operation sequence: no channel is closed twice, closed channels are distinct, a channel attached to an entry is open and attached nowhere else (c10_channels_closed_once); Done closes the waiting channel of its piece and leaves none behind (c10_done_wakes, c10_done_clears); Add records the priority on that piece only; Del withdraws exactly one occurrence (a permutation statement) from that piece only and nothing when nobody holds it; Done/DelIdle never take a consumer's priority away; a wanted piece stays requested. Tie: generated operation sequences on a real tor.Requested (return values, entries and the closed state of every channel ever handed out compared with the model after every operation) and scenarios on the real event handler with real peers (consumers asking for completion channels at several priorities, withdrawing, pieces delivered good/corrupt, evicted, requests that raced with completion): at each quiescent point a waiter is woken iff its piece was verified after it started waiting or its wait was abandoned, nobody sleeps on a verified piece, and Torrent.requested carries exactly the priorities the consumers hold.",
+        level_note="The interleaving of a reader goroutine with the event loop (Torrent.Request's completeness test before queuing) is represented by issuing the TorRequest for a complete piece directly; tor.Reader's own bookkeeping (which pieces it withdraws) is part of C02. The wake-up theorem is about the data structure; its use by requestPiece/TorHave is tied by the scenarios only.",
+        harness="swarm", args=["-prop", "C10"], check_module="RequestedCheck",
+        n_quick=120, n_thorough=1500,
+        trusted=COMMON_TRUST + ["verif hooks tor/export_verif.go (VerifNewRequested, VerifSnapshot, VerifRequested, VerifHandleEvent ...)", "the harness's quiescence detection and scripted remote peers"],
+        assumptions=[],
+    ),
     "C11": dict(
         level_text="Theorems about the peer model: every Request added by maybeRequest, for any pipelining decision, comes from a scheduler-queued block, for a piece the peer advertised, sent while unchoked or allowed-fast (c11_requests_send_time); for every block of a well-formed geometry the computed index/offset/length are in range, aligned and exactly min(16 KiB, rest) (c11_request_fields, incl. the >4 GiB overflow fixed in fromChunk); outstanding requests never exceed max(2, reqq) (c11_pipeline_depth); PEX as a transition system with the remote's view as ghost state: never announce twice, never drop an unannounced address, every departure queued and drained in ceil(n/50) ticks (c11_pex_*), tied to sendPex by c11_pex_refines. Monitors on the implementation per step: request/cancel/have conformance against the peer's advertised state, no duplicates, queue depth, PEX deltas. Tie as for C05 (histories weighted towards requests, cancels, PEX).",
         level_note="Partial: the Cancel clause and the no-duplicate-outstanding clause are monitors on the implementation (not yet theorems); the initial Bitfield/HaveAll/HaveNone advertisement of peer.Run is checked by C17's real-connection harness. Trusted as C05.",
